@@ -842,6 +842,36 @@ def model_jobs(c, src, ex, image, g):
             lon = np.asarray(ds["node_lon"].values, dtype=float).tolist()
             lat = np.asarray(ds["node_lat"].values, dtype=float).tolist()
         jobs.append(("geo", sx([w, feats]), "geo", (tk, lon, lat, impl_table("face_node_connectivity"), getattr(ex, "tol", TOL))))
+    # ---- certified reading of the implementation's own table: faces_of(impl table) = the source's faces, and the
+    #      boolean well-formedness predicate of the theorems holds for the generated mesh
+    ids = getattr(ex, "face_ids", None)
+    it = impl_table("face_node_connectivity")
+    if ids is not None and it is not None and fmt in ("ugrid", "topo", "mpas", "esmf", "exodus", "icon") and not c.get("_spec_failed"):
+        n_node = int(ex.n_node) if ex.n_node is not None else 1 + max(x for f in ids for x in f)
+        jobs.append(("faces_of", sx([n_node, len(it[0]), it, ids]), "faces_of", ids))
+    # ---- the model's encoders against the arrays the harness builders wrote
+    if fmt == "mpas" and d["pad"] in ("zeros", "repeat_last"):
+        am = c["mesh"]
+        jobs.append(("mpas_encode", sx([d["pad"] == "zeros", len(image["vOnC"][0]), am["faces"]]), "same", ("verticesOnCell", image["vOnC"])))
+    if fmt == "esmf" and d["pad"] == "fill":
+        am = c["mesh"]
+        start = 1 if d["start"] is None else d["start"]
+        conn = [[-1 if x == S.NAN else x for x in r] for r in image["conn"]]
+        jobs.append(("esmf_encode", sx([start, len(conn[0]), am["faces"]]), "same", ("elementConn", conn)))
+    if fmt == "scrip":
+        am = S.AMesh.from_json(c["mesh"])
+        rows = [list(zip(a, b)) for a, b in zip(image["clon"], image["clat"])]
+        tk2 = Tok([v for r in rows for p in r for v in p])
+        lonc = S.lon_conv(am.lon, d["lon"])
+        faces_tok = [[[tk2.t(lonc[v]), tk2.t(am.lat[v])] for v in f] for f in am.faces]
+        jobs.append(("scrip_encode", sx([len(rows[0]), faces_tok]), "same",
+                     ("grid_corner_lon/lat", [[[tk2.t(p[0]), tk2.t(p[1])] for p in r] for r in rows])))
+    if fmt == "ugrid" and g is not None:
+        if "edge_node" in ex.aux and d["names"] and "edge_node_connectivity" in ds:
+            # source with its own dimension names: which of them were renamed to the UGRID names
+            jobs.append(("ugrid_dims", sx([d["dims_attr"], d["dims_attr"], d["dims_attr"], "edge_coords" in ex.aux]), "dims",
+                         [ds["node_lon"].dims[0] == "n_node", ds["face_node_connectivity"].dims[0] == "n_face",
+                          ds["edge_node_connectivity"].dims[0] == "n_edge"]))
     return jobs
 
 
@@ -887,6 +917,18 @@ def compare(kind, mo, payload):
             return "node lists: impl %s / %s model %s / %s" % (str(lon)[:200], str(lat)[:200], str(ml)[:200], str(mb)[:200])
         if it != mo[2]:
             return "table: impl %s model %s" % (str(it)[:300], str(mo[2])[:300])
+    elif kind == "faces_of":
+        if mo[0] != payload:
+            return "faces_of(implementation table) %s, source faces %s" % (str(mo[0])[:300], str(payload)[:300])
+        if mo[1] != 1:
+            return "generated mesh does not satisfy c01_wf_facesb"
+    elif kind == "same":
+        name, want = payload
+        if mo != want:
+            return "model encoder vs harness builder (%s): %s vs %s" % (name, str(mo)[:300], str(want)[:300])
+    elif kind == "dims":
+        if [bool(x) for x in mo] != payload:
+            return "dimension renaming: model %s implementation %s" % (mo, payload)
     elif kind == "exo_coords":
         want = [[x[0]] for x in mo]           # which source axis the model reads for x, y, z
         for ax, (sel, w) in enumerate(zip(payload, want)):
@@ -1070,6 +1112,7 @@ def run_case(ck, c, stats, collect):
     if not fails:
         stats["ok"][fmt] = stats["ok"].get(fmt, 0) + 1
     if collect is not None:
+        c["_spec_failed"] = bool(fails)
         try:
             for lz in (lazy if fp1 is not None else []):
                 collect.setdefault("lazy", []).append((lz[0], "lazy", lz[1], case))
